@@ -109,8 +109,8 @@ class Modules:
 		Args:
 			via_module: 読み込み中のモジュール
 		"""
-		for import_node in via_module.entrypoint.imports:
-			self.load(import_node.import_path.tokens)
+		depends = [self.load(import_node.import_path.tokens) for import_node in via_module.entrypoint.imports]
+		via_module.depends_on(depends)
 
 	def identity(self) -> str:
 		"""モジュール全体から一意な識別子を生成
